@@ -158,8 +158,38 @@ func (w *world) checkZeroSets() {
 	}
 }
 
+// checkCallbacksRan: a callback that is registered - its registration returned before the collection was
+// invoked, and no unregistration of it was invoked before the collection returned - is run by every
+// successful collection of every reader, whatever else is registered or unregistered meanwhile (the
+// statement quantifies over histories interleaving callback registration/unregistration and collections).
+func (w *world) checkCallbacksRan() {
+	for _, c := range w.colls {
+		if c.err != nil || c.ret == 0 || c.how == "export" && c.observed == nil {
+			continue
+		}
+		for idx := 6; idx <= 8; idx++ {
+			registered, unsure := false, false
+			for _, e := range w.regHist {
+				if e.inst != idx {
+					continue
+				}
+				switch {
+				case e.ret < c.inv || e.ret == 0 && e.inv == 0: // completed before the collection (or initial)
+					registered = e.on
+				case e.inv < c.ret: // overlaps the collection
+					unsure = true
+				}
+			}
+			if registered && !unsure && c.observed[idx] == nil {
+				w.r.Violate("C08", "callback-not-invoked", "callback-not-invoked", "%s: the callback registered for it was not run by the collection of reader %s invoked at %d (returned %d), although its registration had returned and no unregistration of it was under way", w.insts[idx].name, c.reader, c.inv, c.ret)
+			}
+		}
+	}
+}
+
 func (w *world) oracleC02(usePeriodic bool) {
 	w.checkZeroSets()
+	w.checkCallbacksRan()
 	readers := []string{"D", "C"}
 	if usePeriodic {
 		readers = append(readers, "P")
